@@ -228,7 +228,7 @@ CLAIMED.update({
         'Bounded symbolic model checking over crash points: where the failing cells are inserted, which body they run, after which instruction they fail and whether they fail inside DIP '
         'are solver variables, all pushed values are symbolic; after every successful cell the stack (incl. big_map ids, entries, removals), the protected-prefix counter, the context '
         'counters/registries and every COMMIT lazy diff/result must equal those of the session with the failing cells removed.',
-        'Fixed skeleton of 13 cells, 7 failing-cell bodies; the PLY parser is replaced by a table lookup (cells are Micheline).',
+        'Fixed skeleton of 15 cells, 7 failing-cell bodies; the PLY parser is replaced by a table lookup (cells are Micheline).',
         'DESIGN.md C22',
     ),
 })
